@@ -25,7 +25,7 @@ def build_script(rng, i, quick):
     """A group of 5-7 members with some history; then a set of target messages is produced in
     one epoch and swept against receivers at several positions."""
     n = rng.choice([5, 6, 7])
-    g = HistGen(rng, n_pool=n + 2, name=f"c03-{i}")
+    g = HistGen(rng, n_pool=n + 8, name=f"c03-{i}")
     g.start()
     g.round(n_props=0, by_value_adds=n - 1, by_value_removes=0, app=False, encrypt=False)
     for r in range(2 + rng.below(2)):
